@@ -40,6 +40,21 @@ func load() {
 	if err := json.Unmarshal(data, &raw); err != nil {
 		panic(fmt.Sprintf("ids: %v", err))
 	}
+	// Append-only extension groups (indices of the base pool never change).
+	for _, extra := range []string{"identities_privacy16.json"} {
+		data, err := os.ReadFile(filepath.Join(root, "testdata", extra))
+		if err != nil {
+			panic(fmt.Sprintf("ids: %v", err))
+		}
+		var more []struct {
+			Group string           `json:"group"`
+			Addr  m.AddressStorage `json:"addr"`
+		}
+		if err := json.Unmarshal(data, &more); err != nil {
+			panic(fmt.Sprintf("ids: %s: %v", extra, err))
+		}
+		raw = append(raw, more...)
+	}
 	for i, r := range raw {
 		addr, err := m.AddressFromStorage(r.Addr)
 		if err != nil {
